@@ -4,4 +4,4 @@ import engine_props
 
 
 def run(tier, seed, replay=None):
-    return engine_props.run("C03", tier, seed, ['C03'], "exactly-once, unit wholeness and order", check_c07=False)
+    return engine_props.run("C03", tier, seed, ['C03'], "exactly-once, unit wholeness and order", check_c07=False, solver_feats={"precedence": True})
